@@ -416,7 +416,6 @@ func c07(r *R, concurrent bool) {
 	}
 }
 
-
 // Start/Stop/cancel on a system with remoting: a listener, an accepted and a dialled connection, an outbound queue
 // to an unreachable peer. After Stop no goroutine of the stopped system may be alive (accept loop, connection
 // readers, the outbound sender goroutine, timers).
